@@ -472,6 +472,39 @@ func TestRootOverValueLengths(t *testing.T) {
 				t.Fatalf("key %q with a value of %d bytes (version %d): root %x, reference %x", key, L, version, got, want)
 			}
 		}
+		// around larger powers of two: the same content reached through a detour (a key below the big value's key comes
+		// and goes) has the same root
+		for _, c := range []int{16384, 32768, 65536} {
+			for L := c - 70; L <= c+2; L++ {
+				val := bytes.Repeat([]byte{byte(L), 0x3a, byte(seed), byte(L >> 8)}, L/4+1)[:L]
+				content := map[string][]byte{key: val}
+				want := refmpt.Root(content, version)
+				mpt := mptkit.NewTrie(util.NewMemoryNodeDB(), version, nil)
+				detour := key + "77"
+				if L%2 == 0 {
+					// a sibling instead: the big value then sits on a leaf below a branch, which is lifted when the sibling goes
+					last := key[len(key)-1]
+					detour = key[:len(key)-1] + string("0123456789abcdef"[(strings.IndexByte("0123456789abcdef", last)+5)%16])
+				}
+				for _, step := range []struct {
+					p string
+					v []byte
+				}{{detour, []byte{1}}, {key, val}, {detour, nil}} {
+					var err error
+					if step.v == nil {
+						_, err = mpt.Delete(util.Path(step.p))
+					} else {
+						_, err = mpt.Insert(util.Path(step.p), mptkit.Val(step.v))
+					}
+					if err != nil {
+						t.Fatalf("detour history with a value of %d bytes: %v", L, err)
+					}
+				}
+				if !bytes.Equal(mpt.GetRoot(), want) {
+					t.Fatalf("key %q with a value of %d bytes reached through insert(%q), insert(%q), delete(%q): root %x, reference %x", key, L, detour, key, detour, mpt.GetRoot(), want)
+				}
+			}
+		}
 		ev.Case(fmt.Sprintf("root-over-lengths/%s/%d", key, version), true, "value-length-sweep-1..26200")
 	})
 }
